@@ -234,6 +234,10 @@ pub mod events;
 #[cfg(gmsol_verif)]
 pub mod verif_hooks_g9;
 
+/// Verification-only hooks (thin wrappers, no logic).
+#[cfg(gmsol_verif)]
+pub mod verif_hooks_g7;
+
 use self::{
     instructions::*,
     ops::{
